@@ -203,6 +203,8 @@ func SleepBlocks(on bool)                  {}
 func EagerOffsets(on bool)                 {}
 func HTTPServeCalls() int                  { return 0 }
 func TimedSleep(on bool)                   {}
+func RandZero(on bool)                     {}
+func FineGrain(fn string)                  {}
 func WakeSleepers()                        {}
 
 // WouldBlock natively: run f in a goroutine and wait briefly.
